@@ -37,6 +37,16 @@ Definition transpose_coo (l : list (nat * nat * Z)) : list (nat * nat * Z) :=
 Definition directed2undirected (m : matrix) : matrix :=
   {| m_shape := m_shape m; m_coo := coalesce m ++ transpose_coo (coalesce m); m_bool := false |}.
 
+(** [directed2undirected(adjacency, weighted=False)]: [(adjacency + adjacency.T).astype(bool)]; the sum is
+    taken in the dtype of [adjacency] (logical or for a boolean matrix). *)
+Definition add_transpose (m : matrix) : matrix :=
+  {| m_shape := m_shape m; m_coo := coalesce m ++ transpose_coo (coalesce m); m_bool := m_bool m |}.
+Definition astype_bool (m : matrix) : matrix :=
+  {| m_shape := m_shape m;
+     m_coo := map (fun t => (fst t, if (snd t =? 0)%Z then 0%Z else 1%Z)) (coalesce m); m_bool := true |}.
+Definition directed2undirected_arg (weighted_arg : bool) (m : matrix) : matrix :=
+  if weighted_arg then directed2undirected m else astype_bool (add_transpose m).
+
 (** Canonical view used to compare with the implementation: non-zero entries, one per position. *)
 Definition triples (m : matrix) : list (nat * nat * Z) :=
   filter (fun t => negb (snd t =? 0)%Z) (coalesce m).
@@ -66,6 +76,9 @@ Section Ingest.
   Context (as_int : id -> option nat).
   (** Oracle for [np.unique(x, return_inverse=True)]: (sorted distinct values, inverse map). *)
   Context (unique : list id -> list id * list nat).
+  (** Whether the call of [directed2undirected] in from_edge_array hands over the [weighted] flag
+      (read from the source into Gen/ParseCalls.v); when it does not, the default [weighted=True] applies. *)
+  Context (sym_passes_weighted : bool).
 
   Definition edge := (id * id * Z)%type.
   Definition esrc (e : edge) : id := fst (fst e).
@@ -139,7 +152,8 @@ Section Ingest.
       let '(names, nodes, n) := index_side reindexed (ravel es) (option_map fst (shape fl)) in
       let m := {| m_shape := (n, n); m_coo := combine (unravel nodes) (map ew es);
                   m_bool := negb (weighted fl) |} in
-      Some {| d_matrix := if directed fl then m else directed2undirected m;
+      Some {| d_matrix := if directed fl then m
+                          else directed2undirected_arg (if sym_passes_weighted then weighted fl else true) m;
               d_biadj := false; d_names := names; d_names_row := None; d_names_col := None;
               d_matrix_only := only |}.
 
@@ -213,8 +227,8 @@ Definition str_unique := unique_ref String.eqb String.leb.
 Definition from_edge_list_str := @from_edge_list string String.eqb (fun _ => None) str_unique.
 
 (** [from_adjacency_list] for a list of lists: node [i] is the position in the list. *)
-Definition from_adjacency_list_nat (fl : flags) (adj : list (list nat)) : option (@dataset nat) :=
-  from_edge_list_nat fl (flat_map (fun r => map (fun j => (fst r, j)) (snd r))
+Definition from_adjacency_list_nat (pass : bool) (fl : flags) (adj : list (list nat)) : option (@dataset nat) :=
+  from_edge_list_nat pass fl (flat_map (fun r => map (fun j => (fst r, j)) (snd r))
                                   (combine (seq 0 (length adj)) adj)) None.
 Definition from_adjacency_dict_str := @from_adjacency_dict string String.eqb (fun _ => None) str_unique.
 
